@@ -88,6 +88,8 @@ CELLS = [
     ("str_b64", lambda: "AQID"),
     ("str_b64_badlen", lambda: "A"),
     ("str_b64_pad", lambda: "AQ=="),
+    ("str_b64_newline", lambda: "AQID\n"),          # valid base64 followed by a line feed (`$` matches before it, a2b_base64 skips it)
+    ("str_newline", lambda: "\n"),
     ("str_regex_bad", lambda: "(["),
     ("str_regex_overflow", lambda: "a{99999999999999}"),
     ("str_uuid", lambda: "12345678-1234-5678-1234-567812345678"),
